@@ -231,14 +231,25 @@ def graphs_job(args):
     cid = e2e.cid_map(n)
     orbit_of, _ = G.orbit_table(n)
     bad = []
+    rnd = random.Random(lo * 7919 + n)
+    perms = [None, list(range(1, n)) + [0], list(range(n - 1, -1, -1))]
+    cnt = 0
     for gid in range(lo, hi):
-        try:
-            got = lcc.determine_lc_class(Stabilizer(Graph.decompress(n, gid))).id()
-        except Exception as e:
-            got = f"{type(e).__name__}"
-        if got != cid.get(orbit_of[gid]):
-            bad.append((gid, got, cid.get(orbit_of[gid], 'no id: no representative graph lies in this orbit')))
-    return n, hi - lo, bad
+        st0 = Stabilizer(Graph.decompress(n, gid))
+        rp_ = list(range(n))
+        rnd.shuffle(rp_)
+        # the graph-state generators K_v in their natural order and in other orders (cyclic shift, reversed, seeded permutation): the same group, hence the same class
+        for perm in perms + [rp_]:
+            cnt += 1
+            try:
+                st = st0 if perm is None else Stabilizer((st0.R[:, perm].copy(), st0.S[:, perm].copy()))
+                got = lcc.determine_lc_class(st).id()
+            except Exception as e:
+                got = f"{type(e).__name__}"
+            if got != cid.get(orbit_of[gid]):
+                gl = G.graph_state_gens(n, G.adj_from_id(n, gid))
+                bad.append((gid if perm is None else [gl[v] for v in perm], got, cid.get(orbit_of[gid], 'no id: no representative graph lies in this orbit')))
+    return n, cnt, bad
 
 
 def groups6_job(args):
